@@ -427,4 +427,5 @@ End Components.
 (* EXTRACT: ext_task external_validate external_decompose validated_decompose assembled_decompose
    head_predicate control_translate rename_predicates ug_input_predicates ug_output_predicates
    ug_public_predicates ug_placeholders spec_predicates c_tight c_no_private_recursion c_no_input_in_head
-   c_io_disjoint c_ug_assumptions_inputs_only c_spec_assumptions_no_output c_placeholders_single_sorted *)
+   c_io_disjoint c_ug_assumptions_inputs_only c_spec_assumptions_no_output c_placeholders_single_sorted
+   task_spec_private task_prog_private iset_inter *)
